@@ -48,11 +48,40 @@ func EnvVariable(name string, value any) opts.EvaluateOption {
 			return err
 		}
 		if _, ok := cfg.Context.ExternalConstants[name]; !ok {
-			cfg.Context.ExternalConstants[name] = value
+			cfg.Context.ExternalConstants[name] = flatten(value)
 			return nil
 		}
 		return fmt.Errorf("%w: %s", ErrExistingConstant, name)
 	})
+}
+
+// flatten splices collections nested inside a collection into it: FHIRPath
+// collections do not nest, and the items of a collection are values, never
+// collections. A collection without nested collections is returned as it is.
+func flatten(value any) any {
+	collection, ok := value.(system.Collection)
+	if !ok {
+		return value
+	}
+	nested := false
+	for _, item := range collection {
+		if _, ok := item.(system.Collection); ok {
+			nested = true
+			break
+		}
+	}
+	if !nested {
+		return collection
+	}
+	flat := system.Collection{}
+	for _, item := range collection {
+		if inner, ok := flatten(item).(system.Collection); ok {
+			flat = append(flat, inner...)
+		} else {
+			flat = append(flat, item)
+		}
+	}
+	return flat
 }
 
 // validateType validates that the input type is a supported
